@@ -1,20 +1,105 @@
 import MsPack.Driver.Core
+import MsPack.Oab.Decompress
 /-
-Driver ops of the oab format — STUB: claims nothing, so every oab op prints `unsupported`.
+Driver ops of the oab format: new / param / decompress / decompressinc / destroy.
+Result lines as printed by the C harness (harness/README.md, ops.c): the interface has no
+`last_error`, so `err=-`; ops the harness refuses for an oab instance answer `<op> unsupported`
+after the same argument-count and liveness checks (`bad-args`, `dead-handle`).
 -/
 namespace MsPack.Driver.Oab
 open MsPack MsPack.Driver
 
-structure State where
-  insts : List Nat := []      -- instance numbers that are oab decompressors
+/-- one `new oab` instance: `struct msoab_decompressor_p`, and whether it runs on the default
+    (real file) system, for which the harness cannot count writes (`written=-`) -/
+structure Instance where
+  self      : MsPack.Oab.Inst := {}
+  isDefault : Bool := false
 
-/-- `true` = op handled (result lines emitted) -/
+structure State where
+  insts : List (Nat × Option Instance) := []      -- none = destroyed
+
+abbrev M := HM State
+
+def fuelFor (n : Nat) : Nat := 16 * n + 100000
+
+def setInst (i : Nat) (x : Option Instance) : M Unit :=
+  modifySt fun s => { s with insts := (i, x) :: s.insts.filter (·.1 ≠ i) }
+
+/-- the harness's `parse_num`: optional `-`, then decimal or `0x` hex -/
+def parseNum (s : String) : Option Int :=
+  if s.startsWith "-" then (parseNat (s.drop 1).toString).map fun n => -(n : Int)
+  else (parseNat s).map fun n => (n : Int)
+
+/-- `(int) v` -/
+def toInt32 (v : Int) : Int :=
+  let m := v % 4294967296
+  if m < 2147483648 then m else m - 4294967296
+
+/-- names handed to a default-system instance must be plain file names (`name_ok_for_disk`) -/
+def nameOkForDisk (s : String) : Bool :=
+  !s.isEmpty && !s.toList.contains '/' && s ≠ "." && s ≠ ".."
+
+/-- number of tokens after `op iN` the harness insists on, for the op words it knows -/
+def arity (op : String) : Option Nat :=
+  match op with
+  | "extract" | "decompressinc" | "ffextract" => some 3
+  | "open" | "fastopen" | "search" | "close" | "dump" => some 1
+  | "param" | "append" | "prepend" | "decompress" | "fastfind" => some 2
+  | "destroy" => some 0
+  | _ => none
+
+def tail (op : String) (o : MsPack.Oab.Out) (inst : Instance) (outName : String) : M Unit := do
+  match o.written with
+  | some w => putFile outName w
+  | none => pure ()
+  let written := if inst.isDefault then "-" else toString (o.written.getD []).length
+  emit s!"{op} st={o.err.code} err=- written={written} out={← fileDigest outName}"
+
 def handle (toks : List String) : HM State Bool := do
   match toks with
   | ["new", "oab"] | ["new", "oab", "default"] =>
     let i ← freshInst
-    modifySt fun s => { s with insts := i :: s.insts }
+    setInst i (some { isDefault := toks.length = 3 })
     emit s!"new oab i{i}"
+    return true
+  | op :: itok :: rest =>
+    let some i := parseInst itok | return false
+    let some inst := (← getSt).insts.lookup i | return false
+    match arity op with
+    | none => emit s!"{op} unsupported"; return true
+    | some n =>
+    if rest.length ≠ n then emit s!"{op} bad-args"; return true
+    let some inst := inst | emit s!"{op} dead-handle"; return true
+    let fill := (← getShared).fill
+    match op, rest with
+    | "param", [name, value] =>
+      let some v := parseNum value | emit "param bad-args"; return true
+      let id : Option Int := if name = "DECOMPBUF" then some MsPack.Oab.paramDECOMPBUF else parseNum name
+      let some id := id | emit "param bad-args"; return true
+      let (e, self) := MsPack.Oab.param inst.self (toInt32 id) (toInt32 v)
+      setInst i (some { inst with self := self })
+      emit s!"param st={e.code}"
+    | "decompress", [inName, outName] =>
+      if inst.isDefault ∧ !(nameOkForDisk inName ∧ nameOkForDisk outName) then
+        emit "decompress bad-name"; return true
+      let file ← lookupFile inName
+      match MsPack.Oab.decompress (fuelFor (file.getD []).length) inst.self.bufSize fill file
+              (outIsIn := outName = inName) with
+      | .error f => emit s!"decompress FAULT {reprStr f}"
+      | .ok o => tail op o inst outName
+    | "decompressinc", [inName, baseName, outName] =>
+      if inst.isDefault ∧ !(nameOkForDisk inName ∧ nameOkForDisk baseName ∧ nameOkForDisk outName) then
+        emit "decompressinc bad-name"; return true
+      let file ← lookupFile inName
+      let base ← lookupFile baseName
+      match MsPack.Oab.decompressIncremental (fuelFor (file.getD []).length) inst.self.bufSize fill file base
+              (outIsIn := outName = inName) (outIsBase := outName = baseName) with
+      | .error f => emit s!"decompressinc FAULT {reprStr f}"
+      | .ok o => tail op o inst outName
+    | "destroy", [] =>
+      setInst i none
+      emit "destroy ok"
+    | _, _ => emit s!"{op} unsupported"
     return true
   | _ => return false
 
